@@ -25,7 +25,9 @@ from ..core import Discard, Stats, hyp_search, subseed
 
 PID = "C22"
 RULE = (
-    "probes: for every MVP numeric, conversion, comparison and memory instruction a module with one exported "
+    "compositions: every comparison (incl. eqz) feeding eqz / if / br_if / select / eqz eqz / arithmetic / a local / "
+    "eqz+if / eqz+br_if / eqz+select (the places where wasm2ppci keeps a pending comparison on its value stack), over "
+    "boundary operands incl. NaN, +-0, inf; probes: for every MVP numeric, conversion, comparison and memory instruction a module with one exported "
     "function `local.get*; op`, called with all combinations of a boundary operand pool (quick: 12-19 values per "
     "type, thorough: 22-57 values per type) on targets python and native, plus one module with every load/store "
     "executed on boundary values and addresses; programs: Hypothesis modules "
@@ -480,6 +482,167 @@ def _probe_worker(arg):
     return stats, fails
 
 
+# ---------------------------------------------------------------------------------------------
+# composition probes: a comparison feeding the instructions that wasm2ppci treats specially (a comparison
+# stays "pending" on its virtual stack as (op, a, b) and is consumed directly by if / br_if / select, or
+# materialised as 0/1 when used as a value or by eqz)
+
+CMP_NAMES = ("eqz", "eq", "ne", "lt_s", "lt_u", "gt_s", "gt_u", "le_s", "le_u", "ge_s", "ge_u", "lt", "gt", "le", "ge")
+CMP_OPS = sorted(op for op, (ins, outs) in R.SIG.items() if outs == ["i32"] and op.split(".")[1] in CMP_NAMES and "." in op
+                 and not (".load" in op))  # fmt: skip
+COMP_VARIANTS = ("eqz", "if", "br_if", "select", "eqz_eqz", "value", "eqz_if", "eqz_br_if", "eqz_select", "local", "if_void")
+COMP_POOL = {
+    "i32": [0, 1, -1, 2, 0x7FFFFFFF, -0x80000000],
+    "i64": [0, 1, -1, 2, 0x7FFFFFFFFFFFFFFF, -0x8000000000000000],
+    "f32": [G.f32b(0.0), G.f32b(-0.0), G.f32b(1.0), G.f32b(-1.5), 0x7F800000, 0xFF800000, 0x7FC00000, 0x00000001],
+    "f64": [G.f64b(0.0), G.f64b(-0.0), G.f64b(1.0), G.f64b(-1.5), 0x7FF0000000000000, 0xFFF0000000000000, 0x7FF8000000000000, 1],
+}
+
+
+def comp_body(variant, op):
+    """(locals, body) of a function (operands of op) -> i32 that feeds op's result into `variant`."""
+    ins = R.SIG[op][0]
+    n = len(ins)
+    C = [op, [], [["local.get", [i], []] for i in range(n)]]
+    E = ["i32.eqz", [], [C]]
+    k = lambda v: ["i32.const", [v], []]  # noqa: E731
+    if variant == "eqz":
+        return [], [E]
+    if variant == "eqz_eqz":
+        return [], [["i32.eqz", [], [E]]]
+    if variant == "value":
+        return [], [["i32.add", [], [C, k(10)]]]
+    if variant == "local":  # result stored and re-read
+        return ["i32"], [["local.set", [n], [C]], ["i32.mul", [], [["local.get", [n], []], k(3)]]]
+    if variant == "if_void":  # condition of an if without result, effect through a local
+        return ["i32"], [["local.set", [n], [k(22)]], ["if", None, C, [["local.set", [n], [k(11)]]], None], ["local.get", [n], []]]
+    cond = E if variant.startswith("eqz_") else C
+    what = variant[4:] if variant.startswith("eqz_") else variant
+    if what == "if":
+        return [], [["if", "i32", cond, [k(11)], [k(22)]]]
+    if what == "br_if":
+        return [], [["block", "i32", [["drop", [], [["br_if", [0], [k(11), cond]]]], k(22)]]]
+    if what == "select":
+        return [], [["select", [], [k(11), k(22), cond]]]
+    raise ValueError(variant)
+
+
+def comp_model(variant, r):
+    """Result of the composition when the comparison yields r (0/1)."""
+    if variant == "eqz":
+        return 1 - r
+    if variant == "eqz_eqz":
+        return r
+    if variant == "value":
+        return r + 10
+    if variant == "local":
+        return r * 3
+    if variant.startswith("eqz_"):
+        r = 1 - r
+    return 11 if r else 22
+
+
+def comp_desc(items):
+    """Module with one exported function c<k> per (variant, op)."""
+    desc = {"types": [], "imports": [], "funcs": [], "table": None, "mem": None, "globals": [], "exports": [],
+            "start": None, "elems": [], "datas": []}  # fmt: skip
+    for k, (variant, op) in enumerate(items):
+        sig = [list(R.SIG[op][0]), ["i32"]]
+        if sig not in desc["types"]:
+            desc["types"].append(sig)
+        locs, body = comp_body(variant, op)
+        desc["funcs"].append({"type": desc["types"].index(sig), "locals": locs, "body": body})
+        desc["exports"].append({"name": "c%d" % k, "kind": "func", "idx": k})
+    return desc
+
+
+def comp_of(case):
+    """(variant, op, [arg values]) when the case is a single composition probe with one call, else None."""
+    d = case["desc"]
+    if len(d["funcs"]) != 1 or len(case["calls"]) != 1 or d.get("imports") or d.get("globals"):
+        return None
+    f = d["funcs"][0]
+    for op in CMP_OPS:
+        if any(n[0] == op for n in R.walk(f["body"])):
+            for variant in COMP_VARIANTS:
+                locs, body = comp_body(variant, op)
+                if body == f["body"] and locs == f["locals"]:
+                    return variant, op, [v for _, v in case["calls"][0][1]]
+    return None
+
+
+def _comp_single(variant, op, args_v, target):
+    ins = R.SIG[op][0]
+    return {"desc": comp_desc([(variant, op)]), "calls": [["c0", [[t, v] for t, v in zip(ins, args_v)]]], "target": target}
+
+
+def _comp_worker(arg):
+    vt, target, pool_name, open_ids = arg
+    preload()
+    stats = Stats()
+    fails = []
+    pool = COMP_POOL if pool_name == "quick" else QUICK_POOL
+    items = [(v, op) for op in CMP_OPS if R.SIG[op][0][0] == vt for v in COMP_VARIANTS]
+    desc = comp_desc(items)
+    calls = []
+    for k, (variant, op) in enumerate(items):
+        ins = R.SIG[op][0]
+        for combo in itertools.product(*[pool[t] for t in ins]):
+            calls.append(("c%d" % k, variant, op, list(ins), list(combo)))
+    case = {"desc": desc, "calls": [[f, [[t, v] for t, v in zip(ts, vs)]] for f, _, _, ts, vs in calls], "target": target}
+    try:
+        wasm, info, plan, ref = reference(case)
+    except Discard as d:
+        stats.discard(d.reason)
+        return stats, fails
+    got = P.run_ppci(wasm, target, calls=plan, timeout_s=600.0)
+    if got["status"] == "timeout":
+        stats.discard("timeout:" + target)
+        return stats, fails
+    inst = got["instantiate"] or got["load"]
+    if inst:
+        if inst["exc"] in REJECT_EXC:
+            stats.discard("rejected:%s:%s" % (target, inst["exc"]))
+        else:
+            fails.append((dict(case, calls=case["calls"][:1]), message(target, dict(kind="inst-exc", exc=inst["exc"], frame=inst["frame"], msg=inst["msg"]), desc)))
+        return stats, fails
+    for i, (f, variant, op, ts, vs) in enumerate(calls):
+        r = ref["calls"][i]
+        if i >= len(got["calls"]):
+            if i == len(got["calls"]) and got["status"] != "ok":
+                single = _comp_single(variant, op, vs, target)
+                try:
+                    msg = check_case(single)
+                except Discard as d:
+                    stats.discard(d.reason)
+                    msg = None
+                if msg is not None and len(fails) < 3:
+                    fails.append((single, msg))
+            break
+        g = got["calls"][i]
+        stats.case((target, "comp", variant, op, tuple(vs)), True, None, classes=("comp:" + target, "comp-variant:" + variant))
+        sub_ref = dict(ref, calls=[r], globals={}, mem=None)
+        sub_got = dict(status="ok", load=None, instantiate=None, calls=[g], globals={}, mem=None, done=True)
+        diff = compare(sub_ref, sub_got, [("c0", plan[i][1], plan[i][2])], {"globals": {}})
+        if diff is None:
+            continue
+        single = _comp_single(variant, op, vs, target)
+        msg = message(target, diff, single["desc"])
+        kid = classify(single, msg)
+        if kid and kid in open_ids:
+            stats.known[kid] += 1
+        elif len(fails) < 3:
+            fails.append((single, msg))
+    if calls:
+        f, variant, op, ts, vs = calls[len(calls) // 3]
+        stats.sample({"composition": variant, "op": op, "target": target, "args": [[t, v] for t, v in zip(ts, vs)],
+                      "wat": R.to_wat(comp_desc([(variant, op)]))[:600]})  # fmt: skip
+    if _NODE[0] is not None:
+        _NODE[0].close()
+        _NODE[0] = None
+    return stats, fails
+
+
 MEM_OPS = sorted(op for op in R.SIG if ".load" in op or ".store" in op)
 
 
@@ -606,6 +769,13 @@ def classify(case, msg):
         if target == "python" and op == "f32.demote_f64" and kind == "value" and str(h.get("gotv", "")).startswith("overflow:"):
             if float(str(h["gotv"])[9:]) == _f("f64", args[0]):
                 return "C22-KF9"  # the f64 operand comes back unchanged: not representable as f32
+    cp = comp_of(case) if not pr else None
+    if cp:
+        variant, op, args = cp
+        t, name = op.split(".")
+        if known_probe(op, args, target) == "C22-KF5" and kind == "value":
+            if h.get("gotv") == comp_model(variant, {"eq": 1, "ne": 0, "lt": 1, "le": 1}[name]):
+                return "C22-KF5"  # the composition computed on the wrong comparison result
     # structural findings (predicate on the module + outcome class)
     if kind == "inst-exc" and h.get("exc") == "TypeError" and h.get("frame") == "wasm/wasm2ppci.py:gen_end_instruction" and _dead_loop(desc):
         return "C22-KF10"
@@ -768,6 +938,8 @@ def _job(arg):
         return _probe_worker(payload)
     if kind == "mem":
         return _mem_worker(payload)
+    if kind == "comp":
+        return _comp_worker(payload)
     return _program_worker(payload)
 
 
@@ -784,8 +956,10 @@ def run(ctx):
     jobs += [("mem", (t, ctx.quick, open_ids)) for t in TARGETS]
     pj = [("probe", (ops, target, tier, open_ids, None)) for target in TARGETS for ops in probe_groups()]
     pj.sort(key=lambda j: -len(j[1][0]) * (8 if len(R.SIG[j[1][0][0]][0]) == 2 else 1))
+    jobs += [("comp", (vt, target, tier, open_ids)) for target in TARGETS for vt in ("f64", "f32", "i64", "i32")]
     jobs += pj
     ctx.pmap(_job, jobs)
     ctx.extra["targets_covered"] = list(TARGETS)
     ctx.extra["probe_ops"] = sum(len(g) for g in probe_groups()) + len(MEM_OPS)
+    ctx.extra["composition_probes"] = {"comparisons": len(CMP_OPS), "variants": list(COMP_VARIANTS)}
     ctx.extra["rejections_by_feature"] = {k: v for k, v in ctx.stats.discarded.items() if k.startswith("rejected:")}
